@@ -30,6 +30,9 @@ Types == {"int", "float", "bool", "str", "null"}
 ErrE(cls) == [k |-> "err", cls |-> cls]
 IsErr(e)  == e.k = "err"
 
+RECURSIVE Flat(_)
+Flat(ss) == IF ss = <<>> THEN <<>> ELSE ss[1] \o Flat(Tail(ss))
+
 (* first error among a sequence of elaborated expressions, or <<>> *)
 FirstErr(es) == LET bad == SelectSeq(es, LAMBDA x : x.k = "err") IN
                 IF bad = <<>> THEN <<>> ELSE <<bad[1]>>
